@@ -112,6 +112,20 @@ def make_case(unit):
     tr = {}
     if g.chance(0.5):
         cases.attach_insertions(g, facets, tr, hide_some=False, disjoint=True)
+    if nparts == 1 and facets[0][0] == "cat" and g.chance(0.5):
+        # several differences on one strand (two or more used to break population_counts)
+        v = facets[0][1]
+        vids = [c["id"] for c in v.valid_cats]
+        if len(vids) >= 2 and v.kind in ("cat", "cat_date"):
+            extra = [{"function": "subtotal", "name": "d%d" % k, "anchor": "bottom",
+                      "kwargs": {"positive": [vids[k % len(vids)]],
+                                 "negative": [vids[(k + 1) % len(vids)]]}, "id": 60 + k}
+                     for k in range(g.r.randint(2, 3))]
+            tr.setdefault("rows_dimension", {})
+            base = tr["rows_dimension"].get("insertions")
+            if base is None:
+                base = list(v.view_insertions or [])
+            tr["rows_dimension"]["insertions"] = list(base) + extra
     spec = sim.CubeSpec(facets, g.weights(N, wmode),
                         ("mean",) if "numarr" in template else (), extra=shape[1])
     pop = g.pick([1000, 250000, 12345.5, 1])
